@@ -50,6 +50,7 @@ class Verdict:
         self.coverage = {}
         self.assumptions = []
         self.machinery_errors = []
+        self.soft_errors = []
         self.also_known_of_clause_property = False
         os.makedirs(os.path.join(OUT, "replays"), exist_ok=True)
 
@@ -72,6 +73,12 @@ class Verdict:
     def machinery(self, msg):
         self.machinery_errors.append(msg)
 
+    def incomplete(self, msg):
+        """The exploration lost coverage (e.g. a schedule prefix did not replay). Violations
+        already observed are real executions of the real code and are still reported; with no
+        violation the run is a machinery failure (exit 2), never a pass."""
+        self.soft_errors.append(msg)
+
     def finish(self):
         wall = time.time() - self.t0
         cov = dict(self.coverage)
@@ -83,8 +90,8 @@ class Verdict:
         ev = {"property_id": self.prop, "tier": self.tier, "seed": self.seed,
               "level": self.level, "coverage": cov, "assumptions": self.assumptions,
               "wall_s": round(wall, 2), "violations": len(self.violations)}
-        if self.machinery_errors:
-            ev["coverage"]["machinery_errors"] = self.machinery_errors[:10]
+        if self.machinery_errors or self.soft_errors:
+            ev["coverage"]["machinery_errors"] = (self.machinery_errors + self.soft_errors)[:10]
         os.makedirs(EVID, exist_ok=True)
         with open(os.path.join(EVID, self.prop + ".json"), "w") as f:
             json.dump(ev, f, indent=1, default=str)
@@ -102,6 +109,13 @@ class Verdict:
             shown.add(key)
             if len(shown) <= 20:
                 print("VIOLATION property=%s replay=%s  %s" % (self.prop, path, json.dumps(desc)))
+        if self.soft_errors:
+            ev_note = "INCOMPLETE" if self.violations else "MACHINERY-ERROR"
+            for m in self.soft_errors[:5]:
+                print("%s property=%s %s" % (ev_note, self.prop, m))
+            if not self.violations and not self.machinery_errors:
+                print("RESULT property=%s machinery failure" % self.prop)
+                return 2
         if self.machinery_errors:
             for m in self.machinery_errors[:5]:
                 print("MACHINERY-ERROR property=%s %s" % (self.prop, m))
